@@ -67,11 +67,60 @@ def innerOk (want obs : String) : Bool :=
       (oc == "-" || (oc.splitOn "+").all ((wc.splitOn "+").contains ·))
   | _, _ => false
 
+def entryTok (key : String) (l : List Host) : String := s!"{key}={l.length}/{names (l.filter (·.healthy))}"
+
+/-- every initialised entry of the model's trie, as `TraversalLbSubsetMap` names them (fuel = depth bound) -/
+def dumpRoot : Nat → String → Root → List String
+  | 0, _, _ => []
+  | fuel + 1, pre, root =>
+    root.flatMap (fun (kv, t) =>
+      let p := pre ++ kv.1 ++ ":" ++ kv.2
+      (match t.lb with
+        | some l => [entryTok p l]
+        | none => []) ++ dumpRoot fuel (p ++ "->") t.children)
+
+def dumpLB (lb : LB) : String :=
+  let ents := dumpRoot 16 "" lb.subsets ++ [entryTok "MOSN-Subset-All" lb.full] ++
+    (match lb.fallback with
+      | some f => [entryTok "MOSN-Subset-Fallback" f]
+      | none => [])
+  joinWith "|" (sortStrings ents)
+
+/-- the declarative content of the trie, from the raw configuration: for every configured selector (as a sorted key
+set) and every host carrying all its keys, the path of that host's values holds exactly the hosts containing it -/
+def expectTrie (hosts : List Host) (raw : List (List Key)) (policy : Nat) (dflt : Path) : String :=
+  let paths : List Path := raw.flatMap (fun r =>
+    let ks := sortStrings (dedup r)
+    if ks.isEmpty then [] else
+    hosts.filterMap (fun h => ks.mapM (fun k => (List.lookup k h.md).map (fun v => (k, v)))))
+  let ents := (dedup (paths.map (fun p =>
+      entryTok (joinWith "->" (p.map (fun kv => kv.1 ++ ":" ++ kv.2))) (hosts.filter (contains · p))))) ++
+    [entryTok "MOSN-Subset-All" hosts] ++
+    (match policy with
+      | 1 => [entryTok "MOSN-Subset-Fallback" hosts]
+      | 2 => [entryTok "MOSN-Subset-Fallback" (hosts.filter (contains · dflt))]
+      | _ => [])
+  joinWith "|" (sortStrings ents)
+
 def stripTag (tag : String) (s : String) : Option String :=
   if s.startsWith tag then some (s.drop tag.length).toString else none
 
+def runTrie (pol dflt sels hosts : String) (fi pi : String) : String :=
+  match pol.toNat?, parsePairs dflt, parseHosts hosts, stripTag "F:" fi, stripTag "P:" pi with
+  | some policy, some d, some hs, some fObs, some pObs =>
+    let raw := parseSelectors sels
+    let keys := generateSubsetKeys raw
+    let mf := dumpLB (newFilter hs policy d keys)
+    let mp := dumpLB (newPre id hs policy d keys)
+    let e := expectTrie hs raw policy d
+    let agree := fObs == mf && pObs == mp
+    let spec := fObs == e && pObs == e
+    s!"{if agree then "A" else "D"} {if spec then "S" else "V"} F:{mf} P:{mp}"
+  | _, _, _, _, _ => "E E bad-case"
+
 def run (caseToks impl : List String) : String :=
   match caseToks, impl with
+  | ["t", pol, dflt, sels, hosts, "trie"], [fi, pi] => runTrie pol dflt sels hosts fi pi
   | [kind, pol, dflt, sels, hosts, query], [fi, pi] =>
     match pol.toNat?, parsePairs dflt, parseHosts hosts, parseQuery query, stripTag "F:" fi, stripTag "P:" pi with
     | some policy, some d, some hs, some q, some fObs, some pObs =>
